@@ -799,8 +799,12 @@ func (ot *objectTree) Delete() error {
 	if ot.isDeleted {
 		return nil
 	}
+	if err := ot.storage.Delete(context.Background()); err != nil {
+		// nothing was removed: the tree stays alive so that the deletion can be retried
+		return err
+	}
 	ot.isDeleted = true
-	return ot.storage.Delete(context.Background())
+	return nil
 }
 
 func (ot *objectTree) SnapshotPath() ([]string, error) {
